@@ -174,23 +174,23 @@ Fixpoint replace_nth {A} (n : nat) (x : A) (l : list A) : list A :=
 
 Definition al_add_slot (a s : key) (m : mstate) : mstate :=
   let c := m_core m in
+  let fresh_slot := set_al c (put a (Z.of_nat (length (al_slots c))) (al_addr c)) (al_slots c ++ [[(s, tt)]]) in
   match get a (al_addr c) with
-  | Some (Zpos _ as i) | Some (Z0 as i) =>
-      match nth_error (al_slots c) (Z.to_nat i) with
-      | Some ss =>
-          match get s ss with
-          | Some _ => m                                   (* no changes required *)
-          | None => append (EALSlot a s)
-                      (with_core m (set_al c (al_addr c) (replace_nth (Z.to_nat i) (put s tt ss) (al_slots c))))
-          end
-      | None => m                                          (* index out of range: unreachable (WF) *)
-      end
-  | Some (Zneg _) =>                                       (* address present, no slots yet *)
-      append (EALSlot a s)
-        (with_core m (set_al c (put a (Z.of_nat (length (al_slots c))) (al_addr c)) (al_slots c ++ [[(s, tt)]])))
-  | None =>
-      append (EALSlot a s) (append (EALAccount a)
-        (with_core m (set_al c (put a (Z.of_nat (length (al_slots c))) (al_addr c)) (al_slots c ++ [[(s, tt)]]))))
+  | None =>                                                (* address not present *)
+      append (EALSlot a s) (append (EALAccount a) (with_core m fresh_slot))
+  | Some i =>
+      if Z.ltb i 0 then                                    (* address present, no slots yet (idx == -1) *)
+        append (EALSlot a s) (with_core m fresh_slot)
+      else
+        match nth_error (al_slots c) (Z.to_nat i) with
+        | Some ss =>
+            match get s ss with
+            | Some _ => m                                  (* no changes required *)
+            | None => append (EALSlot a s)
+                        (with_core m (set_al c (al_addr c) (replace_nth (Z.to_nat i) (put s tt ss) (al_slots c))))
+            end
+        | None => m                                        (* index out of range: excluded by WF *)
+        end
   end.
 
 (* ---------- operations (exported mutators) ---------- *)
@@ -309,17 +309,17 @@ Definition undo_core (e : entry) (c : core) : option core :=
   | EALAccount a => Some (set_al c (del a (al_addr c)) (al_slots c))       (* accessList.DeleteAddress *)
   | EALSlot a s =>                                                       (* accessList.DeleteSlot *)
       match get a (al_addr c) with
-      | Some (Zpos _ as i) | Some (Z0 as i) =>
-          match nth_error (al_slots c) (Z.to_nat i) with
-          | Some ss =>
-              let ss' := del s ss in
-              match ss' with
-              | [] => Some (set_al c (put a (-1)%Z (al_addr c)) (firstn (Z.to_nat i) (al_slots c)))
-              | _ => Some (set_al c (al_addr c) (replace_nth (Z.to_nat i) ss' (al_slots c)))
-              end
-          | None => None
-          end
-      | _ => None
+      | None => None                                       (* panic: address not present in list *)
+      | Some i =>
+          if Z.ltb i 0 then None                           (* al.slots[-1]: index out of range *)
+          else match nth_error (al_slots c) (Z.to_nat i) with
+               | Some ss =>
+                   match del s ss with
+                   | [] => Some (set_al c (put a (-1)%Z (al_addr c)) (firstn (Z.to_nat i) (al_slots c)))
+                   | ss' => Some (set_al c (al_addr c) (replace_nth (Z.to_nat i) ss' (al_slots c)))
+                   end
+               | None => None
+               end
       end
   | ETransient a k p => Some (set_transient c (setw (a ++ k) p (transient c)))
   end.
